@@ -67,6 +67,10 @@ def cacheStep (c : Cache) (ops : List String) (impl : String) : Cache × String 
     | some e =>
       let ik := hexArg impl
       if impl != "none" && (c.get ik).isSome && distanceCmp k ik e.key == .eq then (c, impl) else (c, toHex e.key)
+  | ["matching", pfx, nbits] =>
+    match c.forEachMatching (hexArg pfx) (natArg nbits) with
+    | none => (c, "fault")
+    | some es => (c, cmpSeq ((hexArg pfx).take (matchLen (natArg nbits))) (es.map (·.key)) impl "")
   | ["closer", k] => (c, cmpSeq (hexArg k) ((c.forEachCloser (hexArg k)).map (·.key)) impl "")
   | _ => (c, "bad-op")
 
